@@ -3,6 +3,9 @@ provenance terms, path conditions, call graph."""
 import re
 from collections import defaultdict
 
+import json
+import os
+
 from . import facts as F
 
 
@@ -460,6 +463,22 @@ TRANSPARENT_CALLS = re.compile(
     r"(clone|from|into|into_iter|deref|deref_mut|as_ref|to_owned)$)")
 
 
+_PINNED = None
+
+
+def pinned_names():
+    """Parameter / capture names of the reviewed commit by position (tables/pinned_names.json)."""
+    global _PINNED
+    if _PINNED is None:
+        p = os.path.join(F.VERIF, "tables", "pinned_names.json")
+        try:
+            with open(p) as fh:
+                _PINNED = json.load(fh)["names"]
+        except (OSError, ValueError, KeyError):
+            _PINNED = {}
+    return _PINNED
+
+
 class Prov:
     """Backward provenance inside one function body (flow-insensitive over
     definitions of a local; temporaries have one definition)."""
@@ -484,6 +503,10 @@ class Prov:
                 else:
                     self.defs[pl.local].append((bb, None, "partial", t))
         self._memo = {}
+        pn = pinned_names().get(fn.path)
+        # names are alpha-renamed to those of the reviewed commit, position by position
+        self.pin_args = pn["args"] if pn and len(pn["args"]) == fn.arg_count else None
+        self.pin_upvars = pn["upvars"] if pn and fn.kind == "Closure" else None
 
     def of_local(self, l, depth=0, stack=()):
         if l in self._memo:
@@ -495,6 +518,8 @@ class Prov:
             name = fn.names.get(l)
             if name is None and l - 1 < len(fn.arg_names) and fn.arg_names[l - 1]:
                 name = fn.arg_names[l - 1]
+            if self.pin_args is not None and self.pin_args[l - 1]:
+                name = self.pin_args[l - 1]
             if fn.kind == "Closure" and l == 1:
                 name = "<env>"
             r = T("param", name or ("arg%d" % l), meta=l)
@@ -541,7 +566,10 @@ class Prov:
                 elif t.kind == "aggr" and t.meta and p["i"] < len(t.sub) and t.meta.get("kind") in ("tuple", "adt", "closure"):
                     t = t.sub[p["i"]]
                 else:
-                    t = T("field", p["name"], sub=[t], meta=p)
+                    nm = p["name"]
+                    if self.pin_upvars is not None and pl.local == 1 and str(p["i"]) in self.pin_upvars and self._is_env(t):
+                        nm = self.pin_upvars[str(p["i"])]
+                    t = T("field", nm, sub=[t], meta=p)
             elif k == "downcast":
                 t = T("variant", p["variant"], sub=[t])
             elif k == "index":
@@ -553,6 +581,12 @@ class Prov:
             else:
                 t = T("unknown", k, sub=[t])
         return t
+
+    @staticmethod
+    def _is_env(t):
+        while t.kind in ("deref", "ref") and t.sub:
+            t = t.sub[0]
+        return t.kind == "param" and t.a == "<env>"
 
     def of_operand(self, op, depth=0, stack=()):
         k = op.get("k")
